@@ -150,7 +150,7 @@ CARD_FORMS = [
     ('{id} 3 -2.7 {g} imp:n=1 u=2', False),
     ('{id} 0 {g} u=4 imp:n=1 vol=1.5', False),
     ('{id} 12 1.0e-2 {g}', False),
-    ('{id} 5 -1.0{g} imp:n=1', True),     # needs the geometry to start with (
+    ('{id} 5 -1.0{g} imp:n=1', True),     # needs the geometry to start with ( or #
     ('  {id}   7  -8.96   {g}   IMP:N=2', False),
     ('{id} 0 {g}imp:n=1 u=3', 'close'),   # options right after a closing )
     ('{id} 0{g} imp:n=1', True),          # void: ( right after the material 0
@@ -165,7 +165,8 @@ def card_text(cid, g, form):
     if needs_paren == 'close':
         if not g.endswith(')'):
             tmpl = CARD_FORMS[0][0]
-    elif needs_paren and not g.startswith('('):
+    elif needs_paren and not g.startswith(('(', '#')):
+        # ( and # delimit entries: no blank is needed in front of them
         tmpl = CARD_FORMS[0][0]
     return tmpl.format(id=cid, g=g)
 
@@ -327,7 +328,7 @@ def _enum_worker(args):
             # the card forms that glue the expression to its neighbours are
             # tried whenever the spelled expression allows them
             txt = render(tree, sp)
-            if si == 0 and txt.startswith('('):
+            if si == 0 and txt.startswith(('(', '#')):
                 forms += [f for f in (4, 7) if f != form]
             if si == 0 and txt.endswith(')'):
                 forms += [f for f in (6,) if f != form]
